@@ -28,4 +28,11 @@ CLAIMED = {
             "technique": "TLA+ grammar classifier + TLC bounded-exhaustive string enumeration; trace validation of parse/render/re-parse"},
 }
 
+CLAIMED["C07"] = {"text": "A byte-level reference reader (RefRead) written from deb822(5)/Policy 5.1 classifies every document as well-formed (with its paragraphs, field names and logical lines) or not; TLC model-checks the ParagraphReader.Next state machine (Impl layer, one action per line, locals reset per call) against it over all token documents, and judges the real reader's four read paths (Next loop, All, Unmarshal into a slice, repeated Decode) on every document of the bounded-exhaustive token/byte domains plus seeded model documents. The per-paragraph invariant is demanded for arbitrary bytes.",
+                  "design_ref": "3/C07", "note": _TB,
+                  "technique": "TLA+ reference reader + TLC model checking of the reader machine; trace validation of four read paths"}
+CLAIMED["C08"] = {"text": "The bytes written by Paragraph.WriteTo / Encoder are judged by the reference reader (so a writer/reader pair that is consistently wrong is still caught), re-read by the real reader, and cycled three times; TLC enumerates paragraph models with values drawn from line sequences (empty lines, runs of empty lines, indented lines, trailing newline or not) and uses every token/byte document the reader accepts as reader-produced input.",
+                  "design_ref": "3/C08", "note": _TB + " Values whose first line is empty but which have further lines are a formatting request of the multiline convention, not content (DESIGN 3/C08).",
+                  "technique": "TLC judges written bytes with the TLA+ reference reader; write/read cycle traces validated"}
+
 NOT_APPLICABLE = {}
